@@ -180,7 +180,7 @@ func runSeq(rep *vh.Report, env vh.Env) {
 	if env.Replay != "" && only < 0 {
 		return
 	}
-	n := env.Pick(240, 4000)
+	n := env.Pick(240, 3000)
 	vh.ForEach(n, 0, only, func(i int) { seqCase(rep, env, i) })
 	if env.Replay == "" {
 		rep.Floor("seq_sequences_judged", 100)
